@@ -1,4 +1,5 @@
 CONSTANTS P = 83  A = 1  B = 7  Gx = 0  Gy = 16  N = 79
+          SecLens <- LensQ
           Stage = "toykey"
           SecPfx = {4}  SecXs = {0}  SecYs = {0}  SecLongYs = {0} DerPos <- PosNone  DerExt <- One0  DerExtLen = 0
 SPECIFICATION Spec
